@@ -1,0 +1,10 @@
+//go:build verif
+
+package aggoracle
+
+import "context"
+
+// VerifTick runs one iteration of the oracle's loop body (processLatestGER) for the verification harness.
+func VerifTick(a *AggOracle, ctx context.Context, blockNumToFetch *uint64) error {
+	return a.processLatestGER(ctx, blockNumToFetch)
+}
